@@ -11,4 +11,4 @@ def seeds_for(universe):
             f[y] = e2
         return {"p": p, "f": f}
     return [s2("b1", 2, "b2", 0, 0), s2("b1", 2, "b2", 0, 3), s2("b1", 1, "b2", -1, 0), s2("b1", 2, "b2", -2, 0),
-            s2("b3", 1, "b1", -1, 0), s2("b3", -1, "b1", 0, 0), s2("b1", 1, "b2", 0, 3)]
+            s2("b3", 1, "b1", -1, 0), s2("b3", -1, "b1", 0, 0), s2("b1", 1, "b2", 0, 3), s2("b1", 0, "b2", 0, 6)]
